@@ -19,6 +19,7 @@ import itertools
 import json
 import random
 import signal
+import zlib
 
 from .. import common
 from .. import shellbuild
@@ -324,12 +325,50 @@ def judge_found(func: str, items, expected, by_id, table, facts: dict, tally: Ta
         tally.note(f'{func}:extra', dict(facts, witness=[describe[t] for t in extra]), case)
 
 
+ARG_KINDS = ['plain', 'derived', 'deepcopy', 'pickled', 'converted']
+_DERIVED = {}
+
+
+def derived(cls):
+    """A caller's own subclass of a library class: adds a helper method, changes nothing."""
+    if cls not in _DERIVED:
+        _DERIVED[cls] = type('My' + cls.__name__, (cls,),
+                             {'describe': lambda self: f'<{type(self).__name__} {self}>'})
+    return _DERIVED[cls]
+
+
+def ids_as(scoping, ids, kind: str):
+    """The identifier list as a NamespaceIds of the caller's making: plain, an instance of the
+    caller's own subclass, a deep copy, a pickle round trip, or converted from a dotted string
+    - equal values all, and all `NamespaceIds`."""
+    import copy    # pylint: disable=import-outside-toplevel
+    import pickle  # pylint: disable=import-outside-toplevel
+    plain = scoping.NamespaceIds(items=list(ids))
+    if kind == 'derived':
+        return derived(scoping.NamespaceIds)(items=list(ids))
+    if kind == 'deepcopy':
+        return copy.deepcopy(plain)
+    if kind == 'pickled':
+        return pickle.loads(pickle.dumps(plain))
+    if kind == 'converted' and ids:
+        return scoping.ns_ids_t('.'.join(ids))
+    return plain
+
+
+def kinds_for(name, scope):
+    pick = zlib.crc32(json.dumps([name, scope]).encode())
+    return ARG_KINDS[pick % len(ARG_KINDS)], ARG_KINDS[(pick // len(ARG_KINDS)) % len(ARG_KINDS)]
+
+
 def check_order(scoping, name, scope, tally: Tally, case: dict):
     """scope_resolution_order(name, scope) == [scope[:k]+name for k = len(scope)..0]."""
     expected = M.spec_resolution_order(scope or [], name)
-    ns_name = scoping.NamespaceIds(items=list(name))
-    ns_scope = None if scope is None else scoping.NamespaceIds(items=list(scope))
-    facts = {'name': name, 'scope': scope, 'expected': expected}
+    name_kind, scope_kind = kinds_for(name, scope)
+    ns_name = ids_as(scoping, name, name_kind)
+    ns_scope = None if scope is None else ids_as(scoping, scope, scope_kind)
+    tally.count(f'arguments_given_as_{name_kind}')
+    facts = {'name': name, 'scope': scope, 'expected': expected, 'name_given_as': name_kind,
+             'scope_given_as': scope_kind}
     tally.doing = ('resolution-order', facts, case)
     try:
         order = scoping.scope_resolution_order(ns_name, ns_scope)
@@ -436,9 +475,12 @@ def eval_lookup(case: dict, tally: 'Tally') -> dict:
         one = narrowed(queries=[[name, scope]])
         check_order(scoping, name, scope, tally, one)
         for omit in ([False, True] if scope is None else [False]):
-            ns_name = scoping.NamespaceIds(items=list(name))
-            ns_scope = None if scope is None else scoping.NamespaceIds(items=list(scope))
-            facts = {'name': name, 'scope': scope, 'scope_argument_omitted': omit}
+            name_kind, scope_kind = kinds_for(name, scope)
+            ns_name = ids_as(scoping, name, name_kind)
+            ns_scope = None if scope is None else ids_as(scoping, scope, scope_kind)
+            tally.count(f'lookup_scope_given_as_{scope_kind}')
+            facts = {'name': name, 'scope': scope, 'scope_argument_omitted': omit,
+                     'name_given_as': name_kind, 'scope_given_as': scope_kind}
             tally.doing = ('find_fqn', facts, one)
             try:
                 found = ast_view.find_fqn(fct, ns_name) if omit else \
@@ -474,7 +516,7 @@ def eval_lookup(case: dict, tally: 'Tally') -> dict:
             tally.count('find_any_empty_suffix_unspecified')
             continue
         expected = sorted(t for _, f, t in table if f[-len(suffix):] == suffix)
-        ns_suffix = scoping.NamespaceIds(items=list(suffix))
+        ns_suffix = ids_as(scoping, suffix, kinds_for(suffix, None)[0])
         tally.doing = ('find_any', {'suffix': suffix}, one)
         try:
             found = ast_view.find_any(fct, ns_suffix)
